@@ -964,6 +964,22 @@ fn corpus() -> Vec<String> {
         out.push(raw_case(&w_status(3, b"m", &[w_any(u, &[0xff, 0xff])])));
         out.push(raw_case(&w_status(3, b"m", &[w_any(u, &w_ld(1, &w_ld(1, b"d")))])));
     }
+    // foreign details with NON-ASCII type urls: a multi-byte character at every offset around the length of the
+    // standard prefix `type.googleapis.com/google.rpc.` (31 bytes) - they are skipped like any other foreign detail,
+    // never sliced in the middle of a character (seed C20i)
+    {
+        let base = "type.googleapis.com/google.rpc.LocalizedMessageOfOthers";
+        for k in 24..40usize {
+            for ch in ["\u{e9}", "\u{20ac}", "\u{1f600}"] {
+                let u = format!("{}{}{}", &base[..k], ch, &base[k..]);
+                out.push(raw_case(&w_status(3, b"m", &[w_any(&u, &w_ld(1, b"en")), w_any(URLS[9], &good)])));
+            }
+        }
+        for u in ["\u{e9}", "type.googleapis.com/\u{4e2d}\u{6587}.rpc.\u{8be6}\u{60c5}", "type.googleapis.com/google.rpc.\u{e9}", "t\u{1f600}ype.googleapis.com/google.rpc.Help"] {
+            out.push(raw_case(&w_status(3, b"m", &[w_any(u, &[0xff, 0xff])])));
+            out.push(raw_case(&w_status(3, b"m", &[w_any(u, &w_ld(1, b"en"))])));
+        }
+    }
     // payload of one kind under the url of another
     for (i, u) in URLS.iter().enumerate() {
         let other = w_ld(1, &w_ld(1, b"x"));
